@@ -146,4 +146,13 @@ example : (run exP exPr (fun _ => false) false [2] [1] [2] [0] [] 0 0).fuelOut =
     ⟨by norm_num [exPr], by norm_num [exPr], by norm_num [exPr],
      fun h => by exact absurd h (by decide), by norm_num [exPr]⟩
 
+/-- `FistaFuelOK` for the library's DEFAULT `FISTAParams` (backtracking: `L_min = 1e-5`, `L_max = 1e20`,
+    `L_0 = 0` i.e. estimated) with the model's default fuel 4096: `nL = 84` (`2⁸⁴ ≥ 10²⁵`), `85 ≤ 4096`. -/
+def prFistaDefault : Params ℚ :=
+  { exPr with L0 := 0, Lmin := 1/100000, Lmax := 100000000000000000000, LgammaFactor := 19/20,
+              maxIter := 1000, qubFuel := 4096 }
+example : FistaFuelOK prFistaDefault 84 :=
+  ⟨by norm_num [prFistaDefault, exPr], by norm_num [prFistaDefault, exPr], by norm_num [prFistaDefault, exPr],
+    fun _ h => by norm_num [prFistaDefault, exPr] at h, by norm_num [prFistaDefault, exPr]⟩
+
 end Alpaqa.Props.C03_Fista
